@@ -67,7 +67,8 @@ def main():
         sf = []
         for k, v in seeds:
             name = k.split("/")[2]
-            sf.append("%s: %s" % (name, "yes" if any(c == pid and s == "FIRED" for c, s in v["fired"]) else "**no**"))
+            by = [c for c, s in v["fired"] if s == "FIRED"]
+            sf.append("%s: %s" % (name, "yes" if pid in by else ("by %s" % "+".join(by) if by else "**no**")))
         print("| %s | %s | %d rules: %s | %s | %s | %s | %s |" % (pid, p["title"], nrules, " ".join(kinds), inst,
                                                          ("%d/%d" % (ownf, len(own))) if own else "-", ("%d/%d" % (benf, len(ben))) if ben else "-",
                                                          "; ".join(sf) or "not seeded"))
